@@ -31,6 +31,7 @@ func runC10(c *Ctx) {
 	c04R2(c, p, "C10.R3.no-dropped-delta")
 	c04R3(c, p, "C10.R3.toggles")
 	c04R4(c, p, "C10.R3.scratch-vs-incremental")
+	c04R8(c, p, "C10.R3.keys-drawn")
 	c02R2(c, p, "C10.R3.ep-convention")
 	c02R7(c, p, "C10.R3.ep-capturable")
 	c02R5(c, p, "C10.R3.uci-history")
@@ -443,6 +444,9 @@ func init() {
 		Mutant{Name: "C10.R4-history-reset-on-zero-clock", Prop: "C10", File: "uci/uci.go", Quick: true,
 			Old: "\t\tb.MakeMove(m)\n", New: "\t\tb.MakeMove(m)\n\t\tif b.FiftyCnt == 0 {\n\t\t\tb.ResetHash()\n\t\t}\n",
 			Expect: "C10.R4/uci.(*Driver).applyMoves#history-reset"},
+		Mutant{Name: "C10.R3-king-keys-never-drawn", Prop: "C10", File: "board/zobrist.go",
+			Old: "\t\tfor j := range piecesRand[i] {\n\t\t\tfor k := range piecesRand[i][j] {\n\t\t\t\tif j == int(NoPiece) {\n\t\t\t\t\tpiecesRand[i][j][k] = 0\n\t\t\t\t} else {\n\t\t\t\t\tpiecesRand[i][j][k] = Hash(r.Uint64())\n\t\t\t\t}\n\t\t\t}\n\t\t}\n", New: "\t\tfor j := range piecesRand[i][Pawn:] {\n\t\t\tfor k := range piecesRand[i][j] {\n\t\t\t\tpiecesRand[i][j][k] = Hash(r.Uint64())\n\t\t\t}\n\t\t}\n",
+			Expect: "C10.R3.keys-drawn/drawn:board.piecesRand"},
 		Mutant{Name: "C10.R1-stride-four", Prop: "C10", File: "board/board.go", Quick: true,
 			Old: "for ix := len(b.hashes) - 5; ix >= 0; ix -= 2 {", New: "for ix := len(b.hashes) - 5; ix >= 0; ix -= 4 {",
 			Expect: "C10.R1/Threefold#coverage"},
